@@ -668,6 +668,17 @@ static unsigned char utf16_literal_to_utf8(const unsigned char * const input_poi
         goto fail;
     }
 
+    /*
+     * Strings are kept as C strings: a NUL inside one cannot be represented.
+     * Processing the string cut short would silently turn an id, a path or
+     * a value into another one, so the text is refused like any other
+     * malformed text.
+     */
+    if (first_code == 0)
+    {
+        goto fail;
+    }
+
     /* UTF16 surrogate pair */
     if ((first_code >= 0xD800) && (first_code <= 0xDBFF))
     {
